@@ -25,6 +25,14 @@ def goenv():
     e.pop("GOTOOLCHAIN", None)
     return e
 
+def limit_mem(gib=6):
+    """preexec_fn: cap the address space of a child (a runaway compiler must not take the sandbox down)"""
+    import resource
+    def f():
+        lim = int(gib * (1 << 30))
+        resource.setrlimit(resource.RLIMIT_AS, (lim, lim))
+    return f
+
 def sh(cmd, cwd=None, env=None, timeout=None, input=None, check=False):
     p = subprocess.run(cmd, cwd=cwd, env=env, timeout=timeout, input=input, shell=isinstance(cmd, str),
                        stdout=subprocess.PIPE, stderr=subprocess.PIPE)
@@ -213,7 +221,7 @@ def ferret(args, cwd=None, timeout=60):
     im = impl()
     try:
         p = subprocess.run([im.ferret] + list(args), cwd=cwd, stdout=subprocess.PIPE, stderr=subprocess.PIPE,
-                           timeout=timeout, env=dict(os.environ, NO_COLOR="1"))
+                           timeout=timeout, env=dict(os.environ, NO_COLOR="1"), preexec_fn=limit_mem())
         return p.returncode, strip_ansi(p.stdout.decode("utf8", "replace")), strip_ansi(p.stderr.decode("utf8", "replace"))
     except subprocess.TimeoutExpired:
         return -9, "", "TIMEOUT"
@@ -567,7 +575,8 @@ def batch_compile(reqs, nproc=None, timeout=600):
         while todo:
             inp = "".join(json.dumps(r) + "\n" for r in todo).encode()
             try:
-                p = subprocess.run([hook], input=inp, stdout=subprocess.PIPE, stderr=subprocess.PIPE, env=env, timeout=timeout)
+                p = subprocess.run([hook], input=inp, stdout=subprocess.PIPE, stderr=subprocess.PIPE, env=env, timeout=timeout,
+                                   preexec_fn=limit_mem())
                 out = p.stdout; err = p.stderr.decode("utf8", "replace"); rc = p.returncode
             except subprocess.TimeoutExpired as e:
                 out = e.stdout or b""; err = "TIMEOUT"; rc = -9
